@@ -345,6 +345,10 @@ def exec_stub_sampler(case, part):
         for call in case["calls"]:
             if call[0] == "rej":
                 res = joker.rejection_sample(None, lib, n_batches=call[1], n_linear_samples=call[2])
+            elif call[0] == "rejr":
+                # randomised order (index-array route of the batch reader)
+                res = joker.rejection_sample(None, lib, n_batches=call[1], n_linear_samples=call[2], randomize_prior_order=True,
+                                             n_prior_samples=call[3] if len(call) > 3 else None)
             else:
                 res = joker.iterative_rejection_sample(None, lib, n_requested_samples=call[1], init_batch_size=call[2], growth_factor=2, n_batches=call[3])
             out.append((np.atleast_1d(res["P"].to_value(u.day)).tolist(), np.atleast_1d(res["K"].to_value(u.km / u.s)).tolist()))
@@ -367,7 +371,7 @@ def exec_stub_sampler(case, part):
         part.record(c2, outcome=(tuple(map(str, got)),), nontrivial=len(case["calls"]) > 1 or any(len(g[0]) > 1 for g in got))
         explicit = True  # batching identical on both pools so far (n_batches=None means "one batch per worker")
         for k, (a, b) in enumerate(zip(ref, got)):
-            nb = case["calls"][k][1] if case["calls"][k][0] == "rej" else case["calls"][k][3]
+            nb = case["calls"][k][1] if case["calls"][k][0] in ("rej", "rejr") else case["calls"][k][3]
             explicit = explicit and nb is not None
             if a[0] != b[0]:
                 part.violation(dict(c2, call=k), f"call {k} ({case['calls'][k]}) with an equal seed returns other prior samples on this pool than on the serial pool",
@@ -465,6 +469,11 @@ def build(quick):
                           [["iter", 3, 2, None]], [["iter", 2, 4, 2]], [["iter", 3, 2, None], ["rej", None, 1]], [["rej", None, 1], ["iter", 4, 5, None]]):
                 for seed in (3, 11):
                     stub.append(dict(kind="stub_sampler", N=N_, path=path, calls=calls, seed=seed, pools=pools))
+    # a larger library in randomised order: index batches of several hundred rows each (block-read thresholds), one and two calls
+    for N_ in (640, 1500):
+        for path in ("obj", "file"):
+            for calls in ([["rejr", 2, 1]], [["rejr", 3, 1, N_ - 100]], [["rejr", 2, 1], ["rejr", 2, 1]], [["iter", 40, 300, 2]]):
+                stub.append(dict(kind="stub_sampler", N=N_, path=path, calls=calls, seed=7, pools=[["model", 2, 1, False], ["model", 3, 1, True]]))
     return hists, real, stub
 
 
